@@ -238,7 +238,7 @@ def obligations():
             Ob('O3.1-same-constructor', 'unify <=> equality (array wildcard rule) under every composite constructor', ob_ground, ('quick', 'thorough'), 5, dict(pairs=same)),
             Ob('O3.1-cross-constructor', 'unify rejects different composite constructors / leaf vs composite', ob_ground, ('quick', 'thorough'), 5, dict(pairs=cross + [('h', x) for x in comp] + [(x, 'h') for x in comp])),
             Ob('O3.1-nested', 'unify <=> equality on nested skeletons', ob_ground, ('quick', 'thorough'), 20, dict(pairs=nested)),
-            Ob('O3.3-tvar', 'occurs check; TVar binding; norm; rebinding', ob_tvar, ('quick', 'thorough'), 10, {})] + __import__('props.pat_ob', fromlist=['x']).obligations() + __import__('props.ctrl_ob', fromlist=['x']).obligations()
+            Ob('O3.3-tvar', 'occurs check; TVar binding; norm; rebinding', ob_tvar, ('quick', 'thorough'), 10, {})] + __import__('props.pat_ob', fromlist=['x']).obligations() + __import__('props.ctrl_ob', fromlist=['x']).obligations() + __import__('props.self_ob', fromlist=['x']).obligations()
 
 META = {
     'level': 'other',
